@@ -80,7 +80,9 @@ def variants_for(root, clean):
     return out
 
 
-PATTERN_SETS = [[b"*.tmp"], [b"*.o", b"k*"], [b"?"], [b"[ab]*", b"*.tmp"], [b"sub"], [b"*"], [b"nomatch"]]
+PATTERN_SETS = [[b"*.tmp"], [b"*.o", b"k*"], [b"?"], [b"[ab]*", b"*.tmp"], [b"sub"], [b"*"], [b"nomatch"],
+                # patterns that are globs WITHOUT `*` or `?`: bracket expressions and backslash escapes (seeded change C12-8)
+                [b"[ab]", b"su[b]"], [b"[!a-j]", b"\\k.tmp", b"x.[o]"]]
 NAMES = [b"a", b"b", b"c", b"k.tmp", b"x.o", b"sub", b"z z", b".hid", b"\xc3\xbc", b"ab", b"B", b"k", b"t.tmp.x", b"sub2"]
 
 
